@@ -211,7 +211,7 @@ Proof.
     + inversion Hi; subst. exists (with_ref r (r_ref r + 1)). rewrite alook_aset_same. auto.
     + refine (h_res_upd _ (handles st) _ r _ Hl _ _ I_hres _ _ Hi); reflexivity.
   - apply (h_cnt_upd _ (handles st) _ _ r); auto.
-    + cbn [with_ref r_ref hcount]. rewrite <- Ek, key_eqb_refl. rewrite Ek at 2. rewrite <- (I_hcnt _ _ Hl). lia.
+    + pose proof (I_hcnt (fst k) r Hl) as Q. rewrite <- Ek in Q. rewrite <- Ek. cbn [with_ref r_ref hcount]. rewrite key_eqb_refl. lia.
     + intros k2 Hne. cbn [hcount]. destruct (key_eqb k2 k) eqn:E; [apply key_eqb_eq in E; subst k2; congruence|lia].
   - cbn [length]. rewrite Nat2N.inj_succ. lia.
   - apply (q_res_upd _ _ _ r); [exact Hl|reflexivity|exact I_qres].
@@ -245,7 +245,7 @@ Proof.
   destruct H.
   destruct (refs st =? 0) eqn:E0; [apply N.eqb_eq in E0; rewrite I_refs, Hlen, Nat2N.inj_succ in E0; lia|].
   rewrite X.
-  assert (Hrc : r_ref r = hcount k (handles st)) by (rewrite Ek at 2; apply I_hcnt; exact Hl).
+  assert (Hrc : r_ref r = hcount k (handles st)) by (pose proof (I_hcnt (fst k) r Hl) as Q; rewrite <- Ek in Q; exact Q).
   destruct (r_ref r =? 0) eqn:E1; [apply N.eqb_eq in E1; lia|].
   constructor; simp_s.
   - apply aset_nodup. exact I_slab.
@@ -362,6 +362,7 @@ Proof.
   - apply step_hnew; exact H.
   - apply step_hclone; exact H.
   - apply step_hdrop; exact H.
+  - unfold sstep_ok. cbn [sstep]. exact H.
   - apply step_sclone; exact H.
   - apply step_sdrop; exact H.
   - unfold sstep_ok. cbn [sstep]. exact H.
@@ -383,3 +384,295 @@ Proof.
   - apply cinit_inv. exact H.
   - intros idx r A. discriminate.
 Qed.
+
+(* ---------------------------------------------------------------- runs *)
+
+Theorem srun_inv ls : forall st, SInv st ->
+  match srun st ls with
+  | inl (Some (st', _)) => SInv st'
+  | _ => True
+  end.
+Proof.
+  induction ls as [|l ls IH]; intros st H; cbn [srun]; [exact H|].
+  pose proof (sstep_inv st l H) as X. unfold sstep_ok in X.
+  destruct (sstep st l) as [st1 o1|n|n]; [|exact I|exact I].
+  specialize (IH st1 X). destruct (srun st1 ls) as [[[st2 os]|]|[k r]]; [exact IH|exact I|exact I].
+Qed.
+
+(* along ANY label sequence no Rust assert / overflow / `dangling store key` panic of the modelled code fires, except for a
+   label whose own key argument (a Ptr the caller holds) does not resolve in the state it is applied to *)
+Fixpoint run_ok (st : sstate) (ls : list slabel) : Prop :=
+  match ls with
+  | [] => True
+  | l :: ls' =>
+    match sstep st l with
+    | SOk st1 _ => run_ok st1 ls'
+    | SStuck _ => True
+    | SPanic _ => exists k, label_key l = Some k /\ resolve st k = None
+    end
+  end.
+
+Theorem srun_no_panic ls : forall st, SInv st -> run_ok st ls.
+Proof.
+  induction ls as [|l ls IH]; intros st H; cbn [run_ok]; [exact I|].
+  pose proof (sstep_inv st l H) as X. unfold sstep_ok in X.
+  destruct (sstep st l) as [st1 o1|n|n]; [apply IH; exact X|exact I|exact X].
+Qed.
+
+(* ---------------------------------------------------------------- C19 *)
+
+Lemma qcount_In_pos q k l : In (q, k) l -> 1 <= qcount (flag_of q) k l.
+Proof.
+  induction l as [|[q' k'] l IH]; cbn [In qcount]; [intros []|].
+  intros [H|H].
+  - inversion H; subst. rewrite fid_eqb_refl, key_eqb_refl. cbn [andb]. lia.
+  - specialize (IH H). destruct (fid_eqb (flag_of q') (flag_of q) && key_eqb k k'); lia.
+Qed.
+
+(* a key held by a handle, a queue or the id map resolves, and to the record it was taken for *)
+Theorem no_stale_key st : SInv st ->
+  (forall k s, In (k, s) (handles st) -> exists r, resolve st k = Some r /\ r_serial r = s /\ 0 < r_ref r) /\
+  (forall q k, In (q, k) (qs st) -> exists r, resolve st k = Some r /\ r_fl r (flag_of q) = true) /\
+  (forall id idx, alook id (ids st) = Some idx -> exists r, resolve st (idx, id) = Some r) /\
+  (forall k r, resolve st k = Some r -> r_id r = snd k).
+Proof.
+  intros H. repeat split.
+  - intros k s Hi. destruct (I_hres _ H k s Hi) as (r & A & B & C). exists r.
+    split; [apply resolve_spec; auto|]. split; [exact C|].
+    assert (Ek : k = (fst k, r_id r)) by (destruct k; cbn [fst snd] in *; congruence).
+    pose proof (I_hcnt _ H _ _ A) as Q. rewrite <- Ek in Q. pose proof (hcount_hdel _ _ _ Hi). lia.
+  - intros q k Hi. destruct (I_qres _ H q k Hi) as (r & A & B). exists r. split; [apply resolve_spec; auto|].
+    assert (Ek : k = (fst k, r_id r)) by (destruct k; cbn [fst snd] in *; congruence).
+    pose proof (I_qcnt _ H _ _ (flag_of q) A) as Q. rewrite <- Ek in Q. pose proof (qcount_In_pos _ _ _ Hi).
+    destruct (r_fl r (flag_of q)); [reflexivity|cbn [b2n] in Q; lia].
+  - intros id idx A. destruct (I_ids _ H id idx A) as (r & B & C). exists r. apply resolve_spec. cbn [fst snd]. auto.
+  - intros k r A. apply resolve_spec in A. apply A.
+Qed.
+
+(* transition_after on a closed record without handle, queue membership or reset expiry removes it *)
+Theorem released_is_removed st k o r st' outs :
+  SInv st -> resolve st k = Some r ->
+  so_closed o = true -> r_ref r = 0 -> no_flags r = true ->
+  sstep st (LTransitionAfter k o) = SOk st' outs ->
+  alook (fst k) (slab st') = None /\ resolve st' k = None /\ alook (r_id r) (ids st') = None /\
+  outs = [OBool true; OBool true] /\
+  (so_sched o = false -> cmem (r_serial r) (counted (cs st')) = false /\
+     (cmem (r_serial r) (counted (cs st)) = true ->
+        if so_local o then (num_send (cs st') = num_send (cs st) - 1)%Z else (num_recv (cs st') = num_recv (cs st) - 1)%Z)).
+Proof.
+  intros H Hr Hc H0 Hn E. cbn [sstep] in E. rewrite Hr in E.
+  assert (Hf : r_fl r FReset = false).
+  { unfold no_flags in Hn. apply negb_true_iff in Hn. exact (any_flag_false r Hn FReset). }
+  destruct (cstep (cs st) (TransitionAfter (r_serial r) (mkT (so_closed o) (r_fl r FReset) (so_reset_counted o) (so_sched o) (so_local o)))) as [c1 o1|n|n] eqn:Ec;
+    [|discriminate|discriminate].
+  rewrite Hc, H0, Hn, Hf in E. cbn [andb negb N.eqb] in E. rewrite N.eqb_refl in E. cbn [andb] in E.
+  inversion E; subst st' outs. simp_s.
+  split; [apply alook_adel_same|]. split; [unfold resolve; simp_s; rewrite alook_adel_same; reflexivity|].
+  split; [apply alook_adel_same|]. split; [reflexivity|].
+  intros Hs. pose proof (C05_slot_recycled (cs st) (r_serial r) _ c1 o1 (I_cs _ H) Ec) as Y. cbn [t_closed t_sched_reset t_local] in Y.
+  destruct (Y Hc Hs) as (Y1 & Y2 & _). split; [exact Y1|]. intros Hm. specialize (Y2 Hm). destruct (so_local o); apply Y2.
+Qed.
+
+(* a record only disappears when it has no handle and is in no queue *)
+Theorem no_premature_removal st l st' outs idx r :
+  sstep st l = SOk st' outs -> alook idx (slab st) = Some r -> alook idx (slab st') = None ->
+  r_ref r = 0 /\ no_flags r = true.
+Proof.
+  intros E Hl Hn.
+  assert (U : forall (i : N) r', alook idx (aset i r' (slab st)) = None -> False).
+  { intros i r' A. rewrite alook_aset in A. destruct (i =? idx); [discriminate|]. congruence. }
+  destruct l; cbn [sstep] in E.
+  - destruct l; try discriminate;
+      match type of E with context [cstep ?c ?x] => destruct (cstep c x) end; try discriminate; inversion E; subst; simp_s; congruence.
+  - destruct (amem idx0 (slab st)); [discriminate|]. destruct (amem id (ids st)); [discriminate|]. inversion E; subst. simp_s.
+    cbn [alook] in Hn. destruct (idx0 =? idx); [discriminate|congruence].
+  - inversion E; subst. simp_s. congruence.
+  - destruct (alook (fst k) (slab st)) as [r0|] eqn:E1; [|discriminate].
+    destruct (negb (r_id r0 =? snd k)); [discriminate|].
+    destruct ((r_ref r0 =? 0) && no_flags r0) eqn:E3; cbn [negb] in E; [|discriminate].
+    destruct (existsb (fun e : N * N => snd e =? fst k) (ids st)); [discriminate|]. inversion E; subst. simp_s.
+    rewrite alook_adel in Hn. destruct (fst k =? idx) eqn:E5; [|congruence]. apply N.eqb_eq in E5. subst idx.
+    rewrite E1 in Hl. inversion Hl; subst r0. apply andb_true_iff in E3. destruct E3 as (A & B). apply N.eqb_eq in A. auto.
+  - destruct (resolve st k) as [r0|]; [|discriminate]. destruct (r_fl r0 (flag_of q)); [inversion E; subst; congruence|].
+    destruct (match qlast q (qs st) with Some t => resolve st t | None => Some r0 end); [|discriminate].
+    inversion E; subst. simp_s. exfalso. exact (U _ _ Hn).
+  - destruct (resolve st k) as [r0|]; [|discriminate]. destruct (r_fl r0 (flag_of q)); [inversion E; subst; congruence|].
+    inversion E; subst. simp_s. exfalso. exact (U _ _ Hn).
+  - destruct (qfirst q (qs st)) as [k|]; [|inversion E; subst; congruence].
+    destruct (resolve st k) as [r0|]; [|discriminate]. inversion E; subst. simp_s. exfalso. exact (U _ _ Hn).
+  - destruct (resolve st k) as [r0|]; [|discriminate]. inversion E; subst. simp_s. exfalso. exact (U _ _ Hn).
+  - destruct (negb (hmem (k, serial) (handles st))); [discriminate|].
+    destruct (resolve st k) as [r0|]; [|discriminate]. inversion E; subst. simp_s. exfalso. exact (U _ _ Hn).
+  - destruct (negb (hmem (k, serial) (handles st))); [discriminate|]. destruct (refs st =? 0); [discriminate|].
+    destruct (resolve st k) as [r0|]; [|discriminate]. destruct (r_ref r0 =? 0); [discriminate|].
+    inversion E; subst. simp_s. exfalso. exact (U _ _ Hn).
+  - inversion E; subst. congruence.
+  - destruct (nstreams st =? 0); [discriminate|]. inversion E; subst. simp_s. congruence.
+  - destruct (nstreams st =? 0); [discriminate|]. destruct (refs st =? 0); [discriminate|]. inversion E; subst. simp_s. congruence.
+  - inversion E; subst. congruence.
+  - destruct (nstreams st =? 0); [discriminate|]. inversion E; subst. congruence.
+  - destruct (resolve st k) as [r0|] eqn:Er; [|discriminate].
+    match type of E with context [cstep ?c ?x] => destruct (cstep c x) end; try discriminate.
+    apply resolve_spec in Er. destruct Er as (Er & _).
+    destruct (so_closed o && (r_ref r0 =? 0) && no_flags r0) eqn:E3.
+    + inversion E; subst. simp_s.
+      assert (Hn' : alook idx (adel (fst k) (slab st)) = None).
+      { destruct (so_closed o && negb (r_fl r0 FReset)); simp_s; exact Hn. }
+      rewrite alook_adel in Hn'. destruct (fst k =? idx) eqn:E5; [|congruence]. apply N.eqb_eq in E5. subst idx.
+      rewrite Er in Hl. inversion Hl; subst r0. apply andb_true_iff in E3. destruct E3 as (A & B).
+      apply andb_true_iff in A. destruct A as (_ & A). apply N.eqb_eq in A. auto.
+    + inversion E; subst. simp_s. exfalso.
+      destruct (so_closed o && negb (r_fl r0 FReset)); simp_s; exact (U _ _ Hn).
+  - destruct (existsb (fun e : N * rec => r_owed (snd e) && negb (has_reason (snd e))) (slab st)); [discriminate|].
+    inversion E; subst. simp_s. rewrite (alook_map (fun r => with_owed r false)), Hl in Hn. discriminate.
+Qed.
+
+Lemma has_reason_cases r : has_reason r = true -> 0 < r_ref r \/ (exists f, r_fl r f = true) \/ r_closed r = false.
+Proof.
+  unfold has_reason. intros H. apply orb_true_iff in H. destruct H as [H|H].
+  - apply orb_true_iff in H. destruct H as [H|H]; [left; apply N.ltb_lt; exact H|].
+    right. left. unfold any_flag in H. apply existsb_exists in H. destruct H as (f & _ & H). exists f. exact H.
+  - right. right. apply negb_true_iff. exact H.
+Qed.
+
+(* every stored record has a reason to be kept, or transition_after still owes it a look; at the end of a
+   lock-atomic section (Quiesce) nothing is owed *)
+Theorem kept_has_reason st : SInv st ->
+  forall idx r, alook idx (slab st) = Some r ->
+  0 < r_ref r \/ (exists f, r_fl r f = true) \/ r_closed r = false \/ r_owed r = true.
+Proof.
+  intros H idx r A. destruct (I_reason _ H idx r A) as [B|B]; [|auto].
+  destruct (has_reason_cases r B) as [C|[C|C]]; auto.
+Qed.
+
+Theorem kept_has_reason_quiescent st st' outs : SInv st -> sstep st LQuiesce = SOk st' outs ->
+  forall idx r, alook idx (slab st') = Some r ->
+  r_owed r = false /\ (0 < r_ref r \/ (exists f, r_fl r f = true) \/ r_closed r = false).
+Proof.
+  intros H E idx r A. pose proof (sstep_inv st LQuiesce H) as X. unfold sstep_ok in X. rewrite E in X.
+  cbn [sstep] in E. destruct (existsb (fun e : N * rec => r_owed (snd e) && negb (has_reason (snd e))) (slab st)) eqn:Ex; [discriminate|].
+  inversion E; subst. simp_s. rewrite (alook_map (fun r => with_owed r false)) in A.
+  destruct (alook idx (slab st)) as [r0|] eqn:B; cbn [option_map] in A; [|discriminate]. inversion A; subst r. split; [reflexivity|].
+  pose proof (existsb_false _ _ Ex (idx, r0) (alook_In _ _ _ B)) as Y. cbn [snd] in Y.
+  assert (Z : has_reason r0 = true).
+  { destruct (I_reason _ H idx r0 B) as [Z|Z]; [exact Z|]. rewrite Z in Y. cbn [andb] in Y. apply negb_false_iff in Y. exact Y. }
+  exact (has_reason_cases (with_owed r0 false) Z).
+Qed.
+
+Lemma ccount_total l : (ccount true l + ccount false l = Z.of_nat (length l))%Z.
+Proof.
+  induction l as [|[k b] l IH]; cbn [ccount length]; [reflexivity|]. rewrite Nat2Z.inj_succ. destruct b; cbn [Bool.eqb]; lia.
+Qed.
+
+(* the idle-close decision of a client connection *)
+Theorem idle_client_closes st st' outs : SInv st -> sstep st LMaybeClose = SOk st' outs ->
+  st' = st /\
+  (handles st = [] -> nstreams st = 1 -> counted (cs st) = [] -> outs = [OGoAwayNow]) /\
+  (handles st <> [] \/ 1 < nstreams st \/ counted (cs st) <> [] -> outs = []).
+Proof.
+  intros H E. cbn [sstep] in E. destruct (nstreams st =? 0) eqn:E0; [discriminate|]. apply N.eqb_neq in E0.
+  inversion E; subst st' outs. split; [reflexivity|].
+  destruct (I_cs _ H) as (C1 & C2 & _). pose proof (ccount_total (counted (cs st))) as T.
+  pose proof (ccount_nonneg true (counted (cs st))). pose proof (ccount_nonneg false (counted (cs st))).
+  pose proof (I_refs _ H) as R. unfold busy, has_streams. split.
+  - intros Hh Hn Hc. rewrite Hh in R. rewrite Hc in C1, C2. cbn [ccount length] in *.
+    rewrite C1, C2. cbn [Z.eqb negb orb]. replace (refs st) with 1 by lia. reflexivity.
+  - intros [Hh|[Hn|Hc]].
+    + destruct (handles st) as [|h hs]; [congruence|]. cbn [length] in R. rewrite Nat2N.inj_succ in R.
+      assert (X : 1 <? refs st = true) by (apply N.ltb_lt; lia). rewrite X, orb_true_r. reflexivity.
+    + assert (X : 1 <? refs st = true) by (apply N.ltb_lt; lia). rewrite X, orb_true_r. reflexivity.
+    + destruct (counted (cs st)) as [|c cl] eqn:Ec; [congruence|]. cbn [length] in T. rewrite Nat2Z.inj_succ in T.
+      destruct (num_send (cs st) =? 0)%Z eqn:A; destruct (num_recv (cs st) =? 0)%Z eqn:B; cbn [negb orb]; try reflexivity. lia.
+Qed.
+
+(* dropping a reference wakes the connection task when only one reference is left *)
+Theorem streams_drop_wakes st st' outs : sstep st LSDrop = SOk st' outs ->
+  refs st' = refs st - 1 /\ (outs = [OWakeConn] <-> refs st' = 1).
+Proof.
+  intros E. cbn [sstep] in E. destruct (nstreams st =? 0); [discriminate|]. destruct (refs st =? 0); [discriminate|].
+  inversion E; subst. simp_s. split; [reflexivity|]. destruct (refs st - 1 =? 1) eqn:A.
+  - apply N.eqb_eq in A. split; auto.
+  - apply N.eqb_neq in A. split; [discriminate|congruence].
+Qed.
+
+Theorem handle_drop_wakes st k s c st1 o1 st2 o2 :
+  sstep st (LHDrop k s c) = SOk st1 o1 -> sstep st1 LHDropEnd = SOk st2 o2 ->
+  refs st1 = refs st - 1 /\ st2 = st1 /\ (o2 = [OWakeConn] <-> refs st1 = 1).
+Proof.
+  intros E1 E2. cbn [sstep] in E1, E2.
+  destruct (negb (hmem (k, s) (handles st))); [discriminate|]. destruct (refs st =? 0); [discriminate|].
+  destruct (resolve st k) as [r|]; [|discriminate]. destruct (r_ref r =? 0); [discriminate|].
+  inversion E1; subst st1 o1. inversion E2; subst st2 o2. simp_s. split; [reflexivity|]. split; [reflexivity|].
+  destruct (refs st - 1 =? 1) eqn:A.
+  - apply N.eqb_eq in A. split; auto.
+  - apply N.eqb_neq in A. split; [discriminate|congruence].
+Qed.
+
+(* with the connection alive, "one reference left" means: no request-handle clone and no stream handle *)
+Theorem one_reference_left st : SInv st -> 1 <= nstreams st -> refs st = 1 -> nstreams st = 1 /\ handles st = [].
+Proof.
+  intros H Hn Hr. pose proof (I_refs _ H) as R. destruct (handles st) as [|h hs]; [split; [lia|reflexivity]|].
+  cbn [length] in R. rewrite Nat2N.inj_succ in R. lia.
+Qed.
+
+(* the first wake-up of drop_stream_ref: the last handle of a closed stream *)
+Theorem handle_drop_closed_wakes st k s c st' outs r :
+  sstep st (LHDrop k s c) = SOk st' outs -> resolve st k = Some r ->
+  (outs = [OWakeConn] <-> (r_ref r = 1 /\ c = true)).
+Proof.
+  intros E Hr. cbn [sstep] in E. rewrite Hr in E.
+  destruct (negb (hmem (k, s) (handles st))); [discriminate|]. destruct (refs st =? 0); [discriminate|].
+  destruct (r_ref r =? 0) eqn:E0; [discriminate|]. apply N.eqb_neq in E0. inversion E; subst.
+  destruct (r_ref r - 1 =? 0) eqn:A; destruct c; cbn [andb].
+  - apply N.eqb_eq in A. split; [intros _; split; [lia|reflexivity]|reflexivity].
+  - split; [discriminate|intros (_ & B); discriminate].
+  - apply N.eqb_neq in A. split; [discriminate|intros (B & _); lia].
+  - split; [discriminate|intros (_ & B); discriminate].
+Qed.
+
+(* the slot of the locally-reset count comes back when a counted record has left the expiry queue *)
+Theorem reset_slot_returned st k o r st' outs :
+  sstep st (LTransitionAfter k o) = SOk st' outs -> resolve st k = Some r ->
+  so_reset_counted o = true -> r_fl r FReset = false ->
+  (num_lreset (cs st') = num_lreset (cs st) - 1)%Z.
+Proof.
+  intros E Hr Hc Hf. cbn [sstep] in E. rewrite Hr in E.
+  destruct (cstep (cs st) (TransitionAfter (r_serial r) (mkT (so_closed o) (r_fl r FReset) (so_reset_counted o) (so_sched o) (so_local o)))) as [c1 o1|n|n] eqn:Ec;
+    [|discriminate|discriminate].
+  assert (X : cs st' = c1).
+  { destruct (so_closed o && (r_ref r =? 0) && no_flags r); inversion E; subst; simp_s;
+      destruct (so_closed o && negb (r_fl r FReset)); reflexivity. }
+  rewrite X. rewrite (reset_slot_returned (cs st) (r_serial r) _ c1 o1 Ec). cbn [t_pending_reset t_reset_counted].
+  rewrite Hf, Hc. reflexivity.
+Qed.
+
+(* non-vacuity: a request is opened, its two handles are dropped, the record is released and removed; then the last request
+   handle goes and the connection decides to close *)
+Definition demo_slabels : list slabel :=
+  [ LSClone; LInsert 0 7 1; LHNew (0, 1); LHClone (0, 1) 7; LPush KSend (0, 1);
+    LTransitionAfter (0, 1) (mkSO false false false true); LQuiesce;
+    LMaybeClose;
+    LPop KSend; LTransitionAfter (0, 1) (mkSO false false false true); LQuiesce;
+    LHDrop (0, 1) 7 false; LTransitionAfter (0, 1) (mkSO false false false true); LHDropEnd; LQuiesce;
+    LHDrop (0, 1) 7 true; LTransitionAfter (0, 1) (mkSO true false false true); LHDropEnd; LQuiesce;
+    LSDrop; LMaybeClose ].
+
+Example demo_store :
+  match srun (sinit (Some 5%Z) None 10%Z 20%Z None) demo_slabels with
+  | inl (Some (st, outs)) =>
+    slab st = [] /\ ids st = [] /\ refs st = 1 /\ handles st = [] /\
+    nth 7 outs [] = [] /\ nth 15 outs [] = [OWakeConn] /\ nth 16 outs [] = [OBool true; OBool true] /\
+    nth 19 outs [] = [OWakeConn] /\ nth 20 outs [] = [OGoAwayNow]
+  | _ => False
+  end.
+Proof. vm_compute. repeat split; reflexivity. Qed.
+
+(* slot reuse: the index of a removed record is given to a new record with another id; a key kept from the old record does
+   not reach the new one *)
+Example demo_slot_reuse :
+  match srun (sinit None None 10%Z 20%Z None)
+             [ LInsert 0 1 1; LTransitionAfter (0, 1) (mkSO true false false true); LInsert 0 2 3 ] with
+  | inl (Some (st, _)) => resolve st (0, 1) = None /\ exists r, resolve st (0, 3) = Some r /\ r_serial r = 2
+  | _ => False
+  end.
+Proof. vm_compute. split; [reflexivity|]. eexists. split; reflexivity. Qed.
